@@ -38,6 +38,8 @@ def check(ctx):
     n_accept = 0
     for cls in classes:
         cat = catalogue(a, cls)
+        from .flows import rule_hook_after_session
+        rule_hook_after_session(ctx, cat, "S-HOOK", "a subscribe() / unsubscribe() made by the hook is written twice (persistent session) or failed at once with its timer left armed (clean session)")
         eng = cat.eng
         cq = cls_short(cls.qual)
         ccaps = caps[cls.qual]
